@@ -92,6 +92,7 @@ static void modelTest(const Desc& d, const Vec<int>& testGroups, const Vec<int>&
             switch (o.kind) {
             case K_PASS: if (o.a != 9) x.checks++; break;
             case K_FAIL_CPP: case K_FAIL_C: {
+                if (d.pi("crash_on_fail")) { x.childEnd = 1; x.childValue = 6; return; }      // -f: the failing check ends the (child) process on the spot by abort(); its parent sees a child killed by SIGABRT
                 x.checks++;
                 ExpFail f; f.token = o.s2; f.file = file; f.line = (size_t)o.d; f.testName = formattedName(T); f.anyLocation = false; f.kind = 0;
                 if (o.kind == K_FAIL_CPP && o.a == 28) f.bits = (int)(o.b % N_BITS_CASES);
